@@ -359,3 +359,27 @@ def check(run, prog, tier):
     import rules.unitsrule as unitsrule
     unitsrule.check(run, prog, "C17-g", lambda f, text: "A_PATCH" in text or "patch" in text or f.file.endswith("binaries.c"), 3,
                     "the patch list / function tables written to the binary are addressed in the wrong unit: load_binary() relocates other words than save_binary() recorded and the loaded program differs from the compiled one")
+
+
+    # ---- C17-h the sort that puts the case tables of a loaded binary back in order moves whole entries
+    run.rule("C17-h", "load_binary() re-sorts every string-switch table with the driver's quickSort(); its swap moves `size` bytes. If the swap works in units of u bytes (size / u iterations), every element size handed to quickSort() in the driver is a multiple of u - the switch entries are 10 bytes (pointer + jump address)", 3)
+    qs = run.need(prog.func("quickSort"), "quickSort")
+    swaps = [g for g in prog.functions() if g.file == qs.file and g.name != qs.name]
+    unit_u = 1
+    for g in swaps + [qs]:
+        for b, i, n in g.nodes():
+            if n.get("k") == "Bin" and n.get("op") == "/" and strip(n["L"]).get("d") == "param" and "size" in (strip(n["L"]).get("n") or "") and (const_val(n["R"]) or 0) > 1:
+                unit_u = max(unit_u, const_val(n["R"]))
+    nq = 0
+    for f0 in sorted(prog.functions(), key=lambda x: (x.file, x.line)):
+        for j, (b, i, n) in enumerate(f0.calls("quickSort")):
+            if len(n.get("args", [])) < 3:
+                continue
+            nq += 1
+            sz = const_val(n["args"][2])
+            ok = None if sz is None else (sz % unit_u == 0)
+            run.ob("C17-h", "sort-element:%s:%d" % (f0.name, j), ok, "quickSort(.., %s): elements of %s bytes, the swap moves units of %d byte(s)" % (show(n["args"][2])[:30], sz, unit_u) if ok is not False else
+                   "quickSort(.., %s) at line %s sorts elements of %s bytes, but the swap moves size / %d units of %d bytes: the last %d byte(s) of every entry stay where they were%s" % (
+                       show(n["args"][2])[:30], n.get("l"), sz, unit_u, unit_u, (sz or 0) % unit_u, " (the jump addresses of a string switch no longer belong to their labels after a reload)" if f0.name == "patch_in" else ""),
+                   f0.file, n.get("l"), f0.name, what="quickSort() does not move whole elements for %s" % f0.name)
+    run.need(nq >= 3, "quickSort() calls (found %d)" % nq)
